@@ -70,6 +70,8 @@ type Conn struct {
 	BytesIn  int // total bytes written by the client
 	Faulted  string
 	ReadErr  error // injected read error (delivered once the buffer is empty)
+	CutAt    int   // >0: the connection is dropped by the server after the client has read this many more bytes
+	readN    int
 }
 
 type addr string
@@ -122,6 +124,21 @@ func (c *Conn) Read(b []byte) (int, error) {
 		}
 		if c.net.ReadChunk > 0 && n > c.net.ReadChunk {
 			n = c.net.ReadChunk
+		}
+		if c.CutAt > 0 && c.readN+n >= c.CutAt {
+			n = c.CutAt - c.readN
+			copy(b, c.in[:n])
+			c.in = nil
+			c.CutAt, c.readN = 0, 0
+			c.Faulted = "cut"
+			c.dropFromServer()
+			if n == 0 {
+				return 0, io.EOF
+			}
+			return n, nil
+		}
+		if c.CutAt > 0 {
+			c.readN += n
 		}
 		copy(b, c.in[:n])
 		c.in = c.in[n:]
